@@ -539,3 +539,34 @@ class ReserveExact(WindowKernel):
 
 
 KERNELS = [PhysicalIndex, Append, OverwriteOldest, PruneBefore, ReserveExact]
+
+
+# ------------------------------------------------------------------ bounded stand-in for the TSD / nested storage (C05, C20)
+
+from cxxvc.native import NativeCheck  # noqa: E402
+
+
+class DeltaCoherenceEnumeration(NativeCheck):
+    kid = "native:c05_deltas"
+    property_ids = ("C05", "C20")
+    source = "native/bounded/c05_deltas.cpp"
+    title = "at every tick the observed value equals the previous value with the captured delta applied (TSS, TSD, TSD of TSS)"
+    bound_text = ("bounded: histories of H cycles, each a sequence of at most L mutations through the public Out<> API of a real "
+                  "producer node over a small universe (TSS: add/remove of 2 elements; TSD<Int,TS<Int>>: set of 2 values / erase "
+                  "over 2 keys; TSD<Int,TSS<Int>>: erase, child add/remove over 2 keys x 2 elements); quick: TSS H=2 L=3 (7 225), "
+                  "TSD H=1 L=3 (259) + H=2 L=2 (1 849), TSD-of-TSS H=1 L=4 (4 681) + 3 000 random H=3 L=3; thorough: TSD H=2 L=3 "
+                  "(67 081), TSD-of-TSS H=2 L=3 (342 225, sharded), TSS H=3 L=3")
+    functions = ("ts_data_slot_ops.cpp:TSDSlotStorage::insert_key/remove_key/record_child_modified",
+                 "ts_data_slot_ops.cpp:TSSSlotStorage::*", "ts_delta.cpp:capture_delta / apply_delta (TSS, TSD)")
+
+    def runs(self, tier):
+        if tier == "thorough":
+            jobs = [(["tss", "3", "3"], {"SHARD": "%d/4" % i}) for i in range(4)]
+            jobs += [(["tsd", "2", "3"], {"SHARD": "%d/2" % i}) for i in range(2)]
+            jobs += [(["tsd_tss", "2", "3"], {"SHARD": "%d/10" % i}) for i in range(10)]
+            return jobs
+        return [(["tss", "2", "3"], {}), (["tsd", "1", "3"], {}), (["tsd", "2", "2"], {}), (["tsd_tss", "1", "4"], {}),
+                (["tsd_tss", "3", "3", "3000", "5"], {})]
+
+
+NATIVE = [DeltaCoherenceEnumeration]
